@@ -277,6 +277,7 @@ def _mk_formal(sv, tag):
     c = z3.Const(nm, so)
     f = SV(k, c, cls=sv.cls)
     f.ety = sv.ety
+    f.eguard = None  # the owner guard refers to caller terms; inside a summary the element type is assumed directly
     return f, [c]
 
 
@@ -350,9 +351,18 @@ def build_summary(ex, spec, args, base_specs, want_bool, arg_types=None):
         for f, ty in zip(formals, arg_types):
             if ty and f.k not in ("py", "tup", "none"):
                 base_pc.append(simp(T.fact(ex, st, box(f), T.parse(ty))))
-    for (bspec, nargs) in base_specs:
+    for bentry in base_specs:
+        bspec, nargs = bentry[0], bentry[1]
+        when = bentry[2] if len(bentry) > 2 else "cur"
         bs = get_summary(ex, bspec, formals[:nargs], [], True, arg_types[:nargs] if arg_types else None)
-        ba, bv = _instantiate(ex, bs, formals[:nargs], None, None, identity=True)
+        if when == "old":
+            # the base clause (a precondition) speaks about the pre-state: evaluate it on the old heap
+            st_b = State()
+            st_b.ghost["$heap_prefix"] = "GO_"
+            st_b.heap = old
+            ba, bv = _instantiate(ex, bs, formals[:nargs], st_b, None)
+        else:
+            ba, bv = _instantiate(ex, bs, formals[:nargs], st, None)
         base_pc.extend([ba, bv])
         base_attrs |= set(bs.attrs)
         base_old |= set(bs.old_attrs)
@@ -371,7 +381,7 @@ def build_summary(ex, spec, args, base_specs, want_bool, arg_types=None):
             except ReturnEx as r:
                 v = r.value
         except RaiseEx as r:
-            if c2.feasible(z3.BoolVal(True)):
+            if c2.feasible(z3.BoolVal(True)) and c2.feasible_full():
                 raise CheckerError(f"spec function {fdef.name} is partial: {r.exc} at {r.where}")
             raise Infeasible()
         used.update(st2.heap)
@@ -386,6 +396,7 @@ def build_summary(ex, spec, args, base_specs, want_bool, arg_types=None):
     sm.is_bool = want_bool
     assumes = []
     for r in res:
+        assumes.extend(r.globals)
         if r.assumes:
             g = z3.And(*r.branches) if r.branches else z3.BoolVal(True)
             assumes.append(z3.Implies(g, z3.And(*r.assumes)))
@@ -447,11 +458,16 @@ def _fresh_decls(terms, names):
 
 def get_summary(ex, spec, args, base_specs, want_bool, arg_types=None):
     scope, fdef = spec
-    key = (id(fdef), tuple(_proto(a) for a in args), want_bool, tuple((id(b[0][1]), b[1]) for b in base_specs),
+    key = (id(fdef), tuple(_proto(a) for a in args), want_bool,
+           tuple((id(b[0][1]), b[1], b[2] if len(b) > 2 else "cur") for b in base_specs),
            tuple(arg_types) if arg_types else None)
     sm = _SUMMARIES.get(key)
     if sm is None:
+        import time as _t, os as _os, sys as _sys
+        _t0 = _t.time()
         sm = build_summary(ex, spec, args, base_specs, want_bool, arg_types)
+        if _os.environ.get("PYVC_DEBUG"):
+            print(f"summary {fdef.name} built in {_t.time() - _t0:.1f}s", file=_sys.stderr)
         _SUMMARIES[key] = sm
     return sm
 
@@ -496,14 +512,15 @@ _inst_n = [0]
 _LAST_FRESH = [[]]
 
 
-def eval_spec_bool(ex, ctx, st, spec, args, old_heap=None, extra=None, base_specs=(), arg_types=None, as_goal=False):
+def eval_spec_bool(ex, ctx, st, spec, args, old_heap=None, extra=None, base_specs=(), arg_types=None, as_goal=False,
+                   heavy=False):
     """Truth value of a spec function on SV args, as one z3 Bool (standing assumptions met while evaluating it
     -- field types, container well-formedness -- are added to ctx as assumptions)."""
     sm = get_summary(ex, spec, args, list(base_specs), True, arg_types)
     if not sm.reusable:
         raise Unsupported(f"spec function {spec[1].name} creates fresh symbols (not summarisable)")
     a, v = _instantiate(ex, sm, args, st, old_heap)
-    ctx.assume(a, "spec-standing-assumptions")
+    ctx.assume(a, "spec-standing-assumptions", heavy=heavy)
     if as_goal and _LAST_FRESH[0]:
         # witnesses introduced by the spec (first-match indices ...) are existential in a proof goal
         v = z3.Exists(list(_LAST_FRESH[0]), v)
@@ -523,6 +540,17 @@ def eval_spec_value(ex, ctx, st, spec, args, old_heap=None):
 def eval_spec_inline(ex, ctx, st, spec, args):
     """A spec function called from inside a spec evaluation: evaluated in place (same heaps), paths merged."""
     scope, fdef = spec
+    mkey = None
+    if all(a.k != "py" for a in args):
+        try:
+            mkey = ("inline", id(fdef), tuple(simp(box(a)).get_id() for a in args),
+                    tuple(sorted((k_, h_.get_id()) for k_, h_ in st.heap.items())))
+        except Unsupported:
+            mkey = None
+    if mkey is not None:
+        hit = ctx.memo_get(mkey)
+        if hit is not None:
+            return hit[0]
 
     def run(c2):
         st2 = st.copy()
@@ -537,7 +565,7 @@ def eval_spec_inline(ex, ctx, st, spec, args):
             except ReturnEx as r:
                 v = r.value
         except RaiseEx as r:
-            if c2.feasible(z3.BoolVal(True)):
+            if c2.feasible(z3.BoolVal(True)) and c2.feasible_full():
                 raise CheckerError(f"spec function {fdef.name} is partial: {r.exc} at {r.where}")
             raise Infeasible()
         for k_, h_ in st2.heap.items():
@@ -546,16 +574,21 @@ def eval_spec_inline(ex, ctx, st, spec, args):
 
     from .state import _uid
     uid0 = _uid[0]
-    sub = Explorer(base_pc=ctx.pc, branch_timeout_ms=ctx.explorer.branch_timeout_ms, stats=ctx.explorer.stats)
+    sub = Explorer(parent=ctx, base_kinds=ctx.kinds, base_pc=ctx.pc, branch_timeout_ms=ctx.explorer.branch_timeout_ms, stats=ctx.explorer.stats)
     res = sub.explore(run)
     if not res:
         raise Infeasible()
     for r in res:
+        for g_ in r.globals:
+            ctx.assume(g_, glob=True)
         if r.assumes:
             g = z3.And(*r.branches) if r.branches else z3.BoolVal(True)
             ctx.assume(z3.Implies(g, z3.And(*r.assumes)))
-    return merge_values(ex, ctx, st, [(z3.And(*r.branches) if r.branches else z3.BoolVal(True), r.value) for r in res],
-                        uid0)
+    out = merge_values(ex, ctx, st, [(z3.And(*r.branches) if r.branches else z3.BoolVal(True), r.value) for r in res],
+                       uid0)
+    if mkey is not None:
+        ctx.memo[mkey] = (out, [box(a) for a in args], dict(st.heap))  # keeps the key's terms alive
+    return out
 
 
 def contract_types(ex, c, with_result=False):
@@ -572,11 +605,12 @@ def contract_types(ex, c, with_result=False):
     return out
 
 
-def contract_base(c):
-    """Clauses other than `requires` are evaluated under the contract's own precondition."""
+def contract_base(c, post=False):
+    """Clauses other than `requires` are evaluated under the contract's own precondition (which speaks about the
+    pre-state: `post=True` for clauses evaluated in the post-state)."""
     if c.requires is None:
         return ()
-    return (((c.source_scope, c.requires), len(c.params)),)
+    return (((c.source_scope, c.requires), len(c.params), "old" if post else "cur"),)
 
 
 def havoc(ex, ctx, st, attr, mode, tracked):
@@ -639,11 +673,11 @@ def apply_contract(ex, ctx, st, c, args, kwargs, node):
                 xs = c.exsures.get(exc)
                 if xs is not None:
                     ctx.assume(eval_spec_bool(ex, ctx, st, (c.source_scope, xs), args, old_heap,
-                                              base_specs=contract_base(c), arg_types=contract_types(ex, c)))
+                                              base_specs=contract_base(c, post=True), arg_types=contract_types(ex, c)))
                 ex.raise_(st, exc, node)
     for _name, fdef in c.ensures_clauses:
         post = eval_spec_bool(ex, ctx, st, (c.source_scope, fdef), list(args) + [result], old_heap,
-                              base_specs=contract_base(c), arg_types=contract_types(ex, c, True))
+                              base_specs=contract_base(c, post=True), arg_types=contract_types(ex, c, True))
         ctx.assume(post, f"contract:{c.target}")
     return result
 
@@ -673,16 +707,18 @@ def eval_guarded(ex, ctx, st, expr, guard):
             v = ex.eval(c2, st2, expr)
             return st2, "return", v
         except RaiseEx as r:
-            if c2.feasible(z3.BoolVal(True)):
+            if c2.feasible(z3.BoolVal(True)) and c2.feasible_full():
                 raise CheckerError(f"spec expression is partial: {r.exc} at {r.where}")
             raise Infeasible()
 
-    sub = Explorer(base_pc=ctx.pc + [guard], branch_timeout_ms=ctx.explorer.branch_timeout_ms, stats=ctx.explorer.stats)
+    sub = Explorer(parent=ctx, base_kinds=ctx.kinds, base_pc=ctx.pc + [guard], branch_timeout_ms=ctx.explorer.branch_timeout_ms, stats=ctx.explorer.stats)
     res = sub.explore(run)
     disj = []
     for r in res:
         for k_, h_ in r.state.heap.items():
             st.heap.setdefault(k_, h_)
+        for g_ in r.globals:
+            ctx.assume(g_, glob=True)
         if r.assumes:
             g = z3.And(guard, *r.branches)
             ctx.assume(z3.Implies(g, z3.And(*r.assumes)))
@@ -749,7 +785,7 @@ def merge_values(ex, ctx, st, alts, uid0=None):
             ctx.assume(z3.Or(*[z3.And(g, r == v.t) for g, v in alts]))
             return SV(k, r)
         if "py" in kinds:
-            raise Unsupported("relational merge of concrete python objects")
+            raise Unsupported("relational merge of concrete python objects: " + repr([(v.k, v.py) for _, v in alts]))
         r = ctx.fresh("mrg", V, tuple(st.idx))
         ctx.assume(z3.Or(*[z3.And(g, r == box(v)) for g, v in alts]))
         return mk_any(r)
@@ -795,18 +831,20 @@ def eval_merged(ex, ctx, st, expr, guard=None):
             v = ex.eval(c2, st2, expr)
             return st2, "return", v
         except RaiseEx as r:
-            if c2.feasible(z3.BoolVal(True)):
+            if c2.feasible(z3.BoolVal(True)) and c2.feasible_full():
                 raise CheckerError(f"spec expression is partial: {r.exc} at {r.where}")
             raise Infeasible()
 
     base = ctx.pc + ([guard] if guard is not None else [])
     from .state import _uid
     uid0 = _uid[0]
-    sub = Explorer(base_pc=base, branch_timeout_ms=ctx.explorer.branch_timeout_ms, stats=ctx.explorer.stats)
+    sub = Explorer(parent=ctx, base_kinds=ctx.kinds, base_pc=base, branch_timeout_ms=ctx.explorer.branch_timeout_ms, stats=ctx.explorer.stats)
     res = sub.explore(run)
     for r in res:
         for k_, h_ in r.state.heap.items():
             st.heap.setdefault(k_, h_)
+        for g_ in r.globals:
+            ctx.assume(g_, glob=True)
         if r.assumes:
             g = z3.And(*r.branches) if r.branches else z3.BoolVal(True)
             if guard is not None:
@@ -869,7 +907,7 @@ def try_merge_expr(ex, ctx, st, expr, guard):
 
     from .state import _uid
     uid0 = _uid[0]
-    sub = Explorer(base_pc=ctx.pc + [guard], branch_timeout_ms=ctx.explorer.branch_timeout_ms, stats=ctx.explorer.stats,
+    sub = Explorer(parent=ctx, base_kinds=ctx.kinds, base_pc=ctx.pc + [guard], branch_timeout_ms=ctx.explorer.branch_timeout_ms, stats=ctx.explorer.stats,
                    max_paths=64)
     try:
         res = sub.explore(run)
@@ -878,6 +916,8 @@ def try_merge_expr(ex, ctx, st, expr, guard):
     if not ok[0] or not res:
         return None
     for r in res:
+        for g_ in r.globals:
+            ctx.assume(g_, glob=True)
         if r.assumes:
             ctx.assume(z3.Implies(z3.And(guard, *r.branches), z3.And(*r.assumes)))
         ctx.assumptions_used.extend(r.assumptions)
